@@ -394,6 +394,10 @@ structure ListRes where
   kvs : List (Bytes × Bytes × Nat)
   deriving Repr
 
+/-- header of a range response: the committed revision, raised to the newest kv returned -/
+def hdrOf (committed : Nat) (kvs : List (Bytes × Bytes × Nat)) : Nat :=
+  kvs.foldl (fun h kv => max h kv.2.2) committed
+
 /-- `Backend.List`. -/
 def doList (c : Cfg) (s : BState) (key stop : Bytes) (rev limit : Nat) : ScanRes ListRes :=
   if stop.isEmpty then .error .invalid else
@@ -401,12 +405,12 @@ def doList (c : Cfg) (s : BState) (key stop : Bytes) (rev limit : Nat) : ScanRes
   if cmp key stop != .lt then .error .invalid else
   if limit > 0 then
     match scanLimited c s.store (encode key 0) (encode stop 0) reqRev (limit + 1) with
-    | .ok kvs => .ok { hdr := s.committed, more := kvs.length > limit, kvs := kvs.take limit }
+    | .ok kvs => .ok { hdr := hdrOf s.committed (kvs.take limit), more := kvs.length > limit, kvs := kvs.take limit }
     | .error e => .error e
     | .panic => .panic
   else
     match scanParts c s.store (encode key 0) (encode stop 0) reqRev with
-    | .ok outs => .ok { hdr := s.committed, more := false, kvs := outs.flatten }
+    | .ok outs => .ok { hdr := hdrOf s.committed outs.flatten, more := false, kvs := outs.flatten }
     | .error e => .error e
     | .panic => .panic
 
